@@ -86,6 +86,26 @@ func genSearchScenario(rng *rand.Rand, profile string, thorough bool) *SearchSce
 	g := root.Game()
 
 	switch profile {
+	case "deep":
+		// one very deep search on a root with a tiny tree: variations of dozens
+		// of moves, iterations up to the ply cap
+		sc.StartFEN = pick(rng, []string{
+			"8/8/8/1p6/1P6/8/8/K6k w - - 0 1",
+			"8/p7/P7/8/8/4k3/8/4K3 w - - 0 1",
+			"7k/8/8/p7/P7/8/8/K7 w - - 0 1",
+			"8/8/4k3/8/8/4K3/4P3/8 w - - 0 1",
+			"k7/8/8/p1p1p1p1/P1P1P1P1/8/8/K7 w - - 0 1",
+			"8/8/8/8/8/k7/8/K7 w - - 0 1",
+			"8/8/8/3k4/8/3K4/3R4/8 w - - 0 1",
+		})
+		sc.Prefix = nil
+		sc.TTBytes = pick(rng, []int{1 << 20, 4 << 20, 16 << 20})
+		budget := 3_000_000
+		if thorough {
+			budget = 45_000_000
+		}
+		sc.Steps = []SearchStep{{Req: Request{Limits: Limits{Nodes: budget, Depth: 50 + rng.IntN(14)}, StopAtPoll: -1, Output: true}, Play: ""}}
+		return sc
 	case "tiny":
 		// a long random walk searched shallowly at every ply on a table of one to
 		// eight buckets: signature collisions hand the search moves that belong
@@ -186,8 +206,15 @@ func genSearchScenario(rng *rand.Rand, profile string, thorough bool) *SearchSce
 				st.Clear = true
 			}
 			if rng.IntN(15) == 0 {
-				st.Resize = pick(rng, []int{32768, 65536, 1 << 20, 2 << 20})
+				st.Resize = pick(rng, []int{32768, 65536, 1 << 20, 2 << 20, 4 << 20})
 				st.Clear = rng.IntN(2) == 0
+				st.ClearFirst = rng.IntN(2) == 0
+			}
+			if i > 0 && rng.IntN(25) == 0 {
+				// what `setoption Hash` / `ucinewgame` sequences of a GUI amount to:
+				// shrink, clear while small, grow back
+				sc.Steps[len(sc.Steps)-1].Resize = 32768
+				st.Clear, st.ClearFirst, st.Resize = true, true, pick(rng, []int{1 << 20, 4 << 20})
 			}
 			st.Research = rng.IntN(8) == 0
 			if selfplay {
